@@ -1,3 +1,143 @@
-import SoxrModel.Cr.Model
+import SoxrModel.Cr.Pull
+/-!
+# C18 Input-function contract: bounded requests, no call after end or failure
+
+Model: `Api.output` (= `soxr_output` of `soxr.c` as it is now, i.e. with the repaired `break` on failure and with
+`soxr_clear` keeping `max_ilen`), the input function being an **arbitrary** script of answers.  Tie to `/repo`:
+`checks/c18.py` logs every (request, answer) pair of the real library under scripted input functions and replays the
+same calls through this very definition (compiled driver), comparing request sizes, number of calls, counts and flags.
+-/
 namespace Soxr.Properties.C18
+open Soxr Soxr.Cr
+
+/-- the answers a call consumed: `script = used ++ rest` -/
+def Used (script rest used : List Supply) : Prop := script = used ++ rest
+
+/-- **Requests are bounded.**  Every request made during a `soxr_output` call asks for exactly
+    `min(max_ilen, ⌈olen·io_ratio⌉)` frames — never more than `max_ilen`. -/
+theorem request_le_max_ilen (num : Num) (fuel : Nat) (a a' : Api) (len0 od : Nat) (script rest : List Supply) (reqs : List Nat)
+    (h : a.output num fuel len0 script = some (a', od, rest, reqs)) :
+    ∀ r ∈ reqs, r = min a.maxIlen (num.iForO len0) ∧ r ≤ a.maxIlen := by
+  unfold Api.output at h
+  split at h
+  · injection h with h; injection h with _ h; injection h with _ h; injection h with _ h
+    subst h; simp
+  · rename_i herr
+    cases hp : pullLoop num fuel len0 (min a.maxIlen (num.iForO len0)) (script.length + 2) a len0 0 script [] with
+    | none => simp [hp] at h
+    | some v =>
+      obtain ⟨b, od', rest', reqs'⟩ := v
+      simp only [hp] at h
+      injection h with h; injection h with h1 h; injection h with _ h; injection h with h3 h4
+      have spec := pullLoop_spec num fuel len0 _ _ a len0 0 script [] b od' rest' reqs' hp (by simpa using herr)
+      obtain ⟨used, _, u2, _⟩ := spec.used
+      intro r hr
+      rw [← h4, u2] at hr
+      simp only [List.append_nil, List.mem_reverse] at hr
+      have := List.eq_of_mem_replicate hr
+      exact ⟨this, by rw [this]; exact Nat.min_le_left _ _⟩
+
+/-- The full shape of one call, for every script: the consumed answers are a prefix of the script; all but the last
+    are proper (non-empty) supplies — so **nothing is asked after end-of-input or failure**; the number of requests
+    equals the number of answers; a failure puts the resampler in the error state and only a failure does; end-of-input
+    is latched exactly by an end answer. -/
+theorem call_shape (num : Num) (fuel : Nat) (a a' : Api) (len0 od : Nat) (script rest : List Supply) (reqs : List Nat)
+    (herr : a.error = false) (h : a.output num fuel len0 script = some (a', od, rest, reqs)) :
+    ∃ used, Used script rest used ∧ reqs.length = used.length ∧
+      (∀ s ∈ used.dropLast, s.isData = true) ∧
+      (a'.error = true ↔ used.getLast? = some Supply.fail) ∧
+      (a.flushing = false → (a'.flushing = true ↔ ∃ s, used.getLast? = some s ∧ s.isEnd = true)) ∧
+      (a.flushing = true → a'.flushing = true) ∧ a'.hasFn = a.hasFn ∧ a'.maxIlen = a.maxIlen := by
+  unfold Api.output at h
+  simp only [herr, Bool.false_eq_true, if_false] at h
+  cases hp : pullLoop num fuel len0 (min a.maxIlen (num.iForO len0)) (script.length + 2) a len0 0 script [] with
+  | none => simp [hp] at h
+  | some v =>
+    obtain ⟨b, od', rest', reqs'⟩ := v
+    simp only [hp] at h
+    injection h with h; injection h with h1 h; injection h with _ h; injection h with h3 h4
+    subst h1; subst h3
+    have spec := pullLoop_spec num fuel len0 _ _ a len0 0 script [] _ od' _ reqs' hp herr
+    obtain ⟨used, u1, u2, u3, u4, _, u6⟩ := spec.used
+    refine ⟨used, u1, ?_, u3, u4, u6, spec.fl_mono, spec.hasFn, spec.maxIlen⟩
+    rw [← h4, u2]; simp
+
+/-- **No call after end-of-input** (across calls): once flushing, a `soxr_output` call asks nothing. -/
+theorem no_call_when_flushing (num : Num) (fuel : Nat) (a a' : Api) (len0 od : Nat) (script rest : List Supply) (reqs : List Nat)
+    (hfl : a.flushing = true) (h : a.output num fuel len0 script = some (a', od, rest, reqs)) :
+    reqs = [] ∧ rest = script ∧ a'.flushing = true := by
+  unfold Api.output at h
+  split at h
+  · rename_i herr
+    injection h with h; injection h with h1 h; injection h with _ h; injection h with h3 h4
+    subst h1; exact ⟨h4.symm, h3.symm, hfl⟩
+  · rename_i herr
+    cases hp : pullLoop num fuel len0 (min a.maxIlen (num.iForO len0)) (script.length + 2) a len0 0 script [] with
+    | none => simp [hp] at h
+    | some v =>
+      obtain ⟨b, od', rest', reqs'⟩ := v
+      simp only [hp] at h
+      injection h with h; injection h with h1 h; injection h with _ h; injection h with h3 h4
+      subst h1; subst h3
+      have spec := pullLoop_spec num fuel len0 _ _ a len0 0 script [] _ od' _ reqs' hp (by simpa using herr)
+      obtain ⟨used, u1, u2, _, _, u5, _⟩ := spec.used
+      have : used = [] := u5 (Or.inl hfl)
+      subst this
+      simp only [List.nil_append] at u1
+      refine ⟨?_, u1.symm, spec.fl_mono hfl⟩
+      rw [← h4, u2]; simp
+
+/-- **After a failure: no call, no output, state unchanged** — for every later request and every script. -/
+theorem nothing_after_failure (num : Num) (fuel : Nat) (a : Api) (len0 : Nat) (script : List Supply) (herr : a.error = true) :
+    a.output num fuel len0 script = some (a, 0, script, []) := by
+  unfold Api.output; simp [herr]
+
+/-- … and the error state persists over any number of further calls. -/
+theorem failure_is_sticky (num : Num) (fuel : Nat) (a : Api) (herr : a.error = true) (lens : List Nat) (script : List Supply) :
+    ∀ len0 ∈ lens, a.output num fuel len0 script = some (a, 0, script, []) :=
+  fun len0 _ => nothing_after_failure num fuel a len0 script herr
+
+/-- `soxr_process` on the generic path goes through the same loop: its requests obey the same bound. -/
+theorem process_request_bound (num : Num) (fuel : Nat) (a a' : Api) (hasIn flushReq useIdone : Bool) (ilen0 olen idone odone : Nat)
+    (script rest : List Supply) (reqs : List Nat)
+    (h : a.process num fuel hasIn flushReq useIdone ilen0 olen script = some (a', idone, odone, rest, reqs)) :
+    ∀ r ∈ reqs, r ≤ a.maxIlen := by
+  unfold Api.process at h
+  simp only at h
+  split at h
+  · simp at h
+  · rename_i a2 od2 rest2 reqs2 hout
+    injection h with h; injection h with _ h; injection h with _ h; injection h with _ h; injection h with _ h4
+    subst h4
+    intro r hr
+    have := (request_le_max_ilen num fuel _ a2 olen od2 script rest2 reqs2 hout r hr).2
+    -- `max_ilen` is not touched by the flag update nor by `soxr_input`
+    have hm : ∀ (b : Api) (n : Nat), (if n != 0 then b.input n else b).maxIlen = b.maxIlen := by
+      intro b n; split
+      · exact (input_flags b n).2.2.1
+      · rfl
+    rw [hm] at this
+    exact this
+
+/-- Not yet proved in Lean: everything supplied is consumed exactly once, in order (the engine's `samples_in` grows by
+    exactly the supplied amount).  Decided on the real code: pull-mode output is bit-identical to the push and
+    one-shot runs of the same stream (C05) and the drained total is `owed(supplied)`. -/
+def Goal_supplied_consumed_once : Prop :=
+  ∀ (num : Num) (fuel : Nat) (a a' : Api) (len0 od : Nat) (script rest : List Supply) (reqs : List Nat),
+    a.output num fuel len0 script = some (a', od, rest, reqs) → a.error = false → a'.flushing = false →
+    a'.eng.sin = a.eng.sin + ((script.take (script.length - rest.length)).map fun s => match s with | .data n => n | _ => 0).sum
+
+/-! ## non-vacuity: a scripted call on a concrete engine -/
+def exApi : Api := { eng := { stages :=
+  [ { cfg := { kind := .half, prePost := 32 }, st := { occ := 16, isz := 8192 } } ] }, hasFn := true, maxIlen := 64 }
+def exNum : Num := { owed := fun n => n / 2, iForO := fun n => 2 * n }
+
+example : ∃ r, exApi.output exNum 1000 10 [.data 64, .data 64, .fail, .data 100] = some r ∧ r.1.error = false ∧
+    r.2.1 = 10 ∧ r.2.2.2 = [20] ∧ r.2.2.1 = [.data 64, .fail, .data 100] := by
+  refine ⟨_, rfl, ?_, ?_, ?_, ?_⟩ <;> decide
+
+/-- a failure at the first call: error state, the answers after it are never asked for -/
+example : ∃ r, exApi.output exNum 1000 100 [.fail, .data 100] = some r ∧ r.1.error = true ∧ r.2.2.1 = [.data 100] := by
+  refine ⟨_, rfl, ?_, ?_⟩ <;> decide
+
 end Soxr.Properties.C18
